@@ -86,6 +86,8 @@ def r1_action(ctx, prog, cg, summ, drop, rule='R1', silence_only=False):
     chk = ctx.chk
     R1 = rule
     A = prog.require_func(ACTION)
+    from engine import inline as _inlA
+    A = _inlA.inlined(prog, A)      # the action may hand the filter test and the composing/sending to file-local helpers
     emit_names = common.EMIT_APIS | {DISPATCH, OUT_DISPATCH, ERROR_HANDLER}
     calls = A.calls(FILTER_CHECK)
     filtering = 'SNOOPY_CONF_FILTERING_ENABLED' in prog.macros
@@ -343,7 +345,9 @@ def r3_nowhere_else(ctx, prog, cg, summ):
     reach = common.checked_reach(cg, prog) if roots else {}
     for fn, who in allowed.items():
         callers = {cs.caller.name for cs in cg.callers_of(fn) if cs.caller.key in reach}
-        extra = callers - who
+        # a file-local helper of an allowed caller is that caller, written in two pieces
+        helpers_ok = {h.name for w in who if prog.func(w) is not None for h in common.with_helpers(prog, prog.func(w))}
+        extra = callers - who - helpers_ok
         chk.ob('R3', 'callers[%s]' % fn, not extra, '', fn,
                '%s is also called from %s' % (fn, ', '.join(sorted(extra))),
                how='callers on the exec path: %s' % ', '.join(sorted(callers)))
